@@ -71,13 +71,13 @@ def cstr(b):
 
 # ---------------------------------------------------------------------------------------------- trees
 def node_from_tokens(toks):
-    """inverse of Node.tokens() (10 fields, or 12 with the damage fields)"""
+    """inverse of Node.tokens() (10 fields, 12 with the damage fields, 13 with the data start forge() chose)"""
     def rec(i):
         f = toks[i].split(":")
-        if len(f) not in (10, 12):
+        if len(f) not in (10, 12, 13):
             raise ValueError("node token with %d fields" % len(f))
         k, n, p, perm, uid, gid, mt, dev, xa, nch = f[:10]
-        cf, xf = (f[10], f[11]) if len(f) == 12 else ("-", "-")
+        cf, xf = (f[10], f[11]) if len(f) >= 12 else ("-", "-")         # f[12]: where forge() put the data
         xattrs = [] if xa == "-" else [tuple(unhx(x) for x in kv.split("=")) for kv in xa.split(",")]
         i += 1
         ch = []
@@ -936,6 +936,59 @@ def compare_state(rec, m):
     return bad[:6]
 
 
+def sane(name):
+    return name not in (b".", b"..") and b"/" not in name
+
+
+def spec_complete(rec):
+    """The second half of the property, evaluated on the implementation without the model: "skipped entries are reported
+    and the rest of the image is still unpacked or the tool fails".  For a run that ended with status 0 into a fresh R:
+    every entry not hidden below a refused name exists with its type, content, link target (and, as root with -X, its
+    xattrs); every refused entry directly below a visited directory is named on stderr."""
+    if rec["rc"] != 0 or rec["root"] is None or rec["rstate"] not in ("absent", "empty") or rec["upath"] not in ("2f", ""):
+        return []
+    if any(c in rec["flags"] for c in "DSFLE"):
+        return []
+    t = node_from_tokens(rec["tokens"])
+    if t.kind != "d":
+        return []
+    rootb, bad, skipped = os.fsencode(rec["root"]), [], []
+    st = rec["state"]
+    KT = {"d": stat.S_ISDIR, "f": stat.S_ISREG, "l": stat.S_ISLNK, "b": stat.S_ISBLK, "c": stat.S_ISCHR, "p": stat.S_ISFIFO, "s": stat.S_ISSOCK}
+
+    def walk(n, path):
+        for c in n.children:
+            nm = cstr(c.name)
+            if not sane(nm):
+                skipped.append(nm.hex())
+                continue
+            p = path + b"/" + nm
+            got = st.get(p)
+            if got is None:
+                bad.append("exit status 0 but %r of the image is not in R" % p[len(rootb):]); continue
+            if not KT[c.kind](got["mode"]):
+                bad.append("exit status 0 but %r is not a %s" % (p[len(rootb):], c.kind)); continue
+            if c.kind == "f" and got.get("content") != c.payload:
+                bad.append("exit status 0 but %r has %d bytes of content, the image %d" % (p[len(rootb):], len(got.get("content", b"")), len(c.payload)))
+            if c.kind == "l" and got.get("target") != cstr(c.payload).hex():
+                bad.append("exit status 0 but the target of %r differs" % p[len(rootb):])
+            if "X" in rec["flags"] and rec["xattr_table"] and rec["priv"] == "root" and got["xattrs"] != "?":
+                want = {}
+                for k, v in c.xattrs:
+                    want[os.fsdecode(cstr(k))] = v.hex()
+                have = dict(got["xattrs"])
+                for k, v in want.items():
+                    if have.get(k) != v:
+                        bad.append("exit status 0 but xattr %r of %r is not set" % (k, p[len(rootb):]))
+            if c.kind == "d":
+                walk(c, p)
+    walk(t, rootb)
+    for nm in skipped:
+        if nm not in rec["skips"]:
+            bad.append("entry %r was refused but not reported" % bytes.fromhex(nm))
+    return bad[:6]
+
+
 # ---------------------------------------------------------------------------------------------- unprivileged runs
 def nobody_can(st, need):
     bits = (st.st_mode >> 6) if st.st_uid == NOBODY else (st.st_mode >> 3) if st.st_gid == NOBODY else st.st_mode
@@ -1205,7 +1258,17 @@ def fault_cases(ctx, cases, recs, models):
             and "special" not in m and r["rc"] in (0, 1) and not r["changed"] and len(r["tokens"]) <= 40 and model_seq(m)]
     if not pool:
         raise Infra("no base case for fault injection")
-    want = 260 if ctx.quick() else 1500
+    # systematically, on every run: each call of two small trees with all options x the errnos a "fall back to a laxer
+    # variant" patch would key on
+    for i in pool:
+        if cases[i]["label"] in ("small:links out", "small:all kinds") and cases[i]["flags"] == "COXT":
+            for cls, k, where, j, idx in candidates(models[i]):
+                for en in ("EEXIST", "ENOTSUP", "ENOSYS", "EPERM", "EACCES"):
+                    c = dict(cases[i]); c["fault"] = (cls, k, en); c["label"] = "fault-sys:" + c["label"]; c["inject"] = (where, j); c["inject_idx"] = idx
+                    out.append(c)
+    if not out:
+        raise Infra("the systematic fault stream is empty")
+    want = 160 if ctx.quick() else 1500
     pref = [i for i in pool if cases[i]["label"].startswith(("small:", "root:", "builtin:symlinks anywhere", "builtin:devices"))]
     for _ in range(want):
         i = rng.choice(pref if pref and rng.random() < 0.7 else pool)
@@ -1348,6 +1411,14 @@ def judge(ctx, recs, models, plans, stats):
             if stats["nviol"] <= 5:
                 ctx.violation("crash:" + key, "rdsquashfs ended abnormally (rc=%s): %s" % (rec["rc"], rec["stderr"][-400:]), replay_dict(rec, "abnormal end"))
             continue
+        inc = spec_complete(rec)
+        stats["complete_checked"] += rec["rc"] == 0
+        if inc:
+            stats["nviol"] += 1
+            if stats["nviol"] <= 5:
+                ctx.violation("incomplete:" + key, "rdsquashfs reported success although part of the image was not unpacked (or a refused entry not reported): " + "; ".join(inc)[:700],
+                              replay_dict(rec, inc))
+            continue
         # 2. correspondence
         bad = compare(rec, m) + compare_skips(rec, m, pl) + compare_state(rec, m)
         stats["compared"] += 1
@@ -1409,7 +1480,7 @@ def run(ctx):
     models, plans = model_pass(ctx, cases, recs)
     stats = {"hist": {"rc": {}, "model_status": {}, "impl_calls": 0, "skips_reported": 0, "rstate": {}, "priv": {}, "root": {}, "faults": {},
                       "nobody_refusals": {}},
-             "nontrivial": set(), "ndis": 0, "nviol": 0, "nmon": 0, "compared": 0, "monitored": 0, "monitored_calls": 0, "monitor_skipped": {}}
+             "nontrivial": set(), "ndis": 0, "nviol": 0, "nmon": 0, "compared": 0, "complete_checked": 0, "monitored": 0, "monitored_calls": 0, "monitor_skipped": {}}
     judge(ctx, recs, models, plans, stats)
     # fault injection: derived from the fault-free runs
     fcases = fault_cases(ctx, cases, recs, models)
@@ -1420,7 +1491,7 @@ def run(ctx):
     if fcases and nfired * 2 < len(fcases):
         raise Infra("only %d of %d injected faults fired: the wrappers are not in effect" % (nfired, len(fcases)))
     judge(ctx, frecs, fmodels, fplans, stats)
-    if not stats["compared"] or not stats["monitored"] or not stats["monitored_calls"]:
+    if not stats["compared"] or not stats["monitored"] or not stats["monitored_calls"] or not stats["complete_checked"]:
         raise Infra("nothing was compared (%d) or monitored (%d runs, %d calls)" % (stats["compared"], stats["monitored"], stats["monitored_calls"]))
     if not stats["hist"]["root"].get("chdir failed") or not stats["hist"]["root"].get("mkdir_p failed"):
         raise Infra("no generated case made mkdir_p / chdir fail: %s" % stats["hist"]["root"])
@@ -1452,6 +1523,7 @@ def run(ctx):
         "posix_model_probe": pstat,
         "monitor_on_real_calls": {"runs": stats["monitored"], "calls": stats["monitored_calls"], "disagreements": stats["nmon"], "not_monitored": stats["monitor_skipped"]},
         "faults_fired": nfired,
+        "successful_runs_checked_for_completeness": stats["complete_checked"],
         "unprivileged_runs_possible": can_nobody,
     })
     return ctx.finish(LEVEL, trusted_extra=[
